@@ -21,11 +21,13 @@ def enc(x):
     if isinstance(x, SBool):
         return FALSE, mk_if(x.b, rv(1), rv(0))
     if isinstance(x, STime):
-        return x.nat, z3.ToReal(x.s) if not z3.is_int_value(x.s) else rv(x.s.as_long())
+        base = z3.ToReal(x.s) if not z3.is_int_value(x.s) else rv(x.s.as_long())
+        return x.nat, base if getattr(x, "f", None) is None else base + x.f
     if isinstance(x, (np.datetime64,)):
         if np.isnat(x):
             return TRUE, rv(0)
-        return FALSE, rv(int(x.astype("datetime64[s]").astype("int64")))
+        from fractions import Fraction
+        return FALSE, rv(Fraction(int(x.astype("datetime64[ns]").astype("int64")), 10 ** 9))
     if isinstance(x, (float, np.floating)):
         if x != x:
             return TRUE, rv(0)
